@@ -1131,7 +1131,8 @@ class CompositeEnvelope:
                         os = s.envelope.polarization
                     elif isinstance(s, Polarization):
                         os = s.envelope.fock
-                    if os not in state_list:
+                    # Compare by identity, two fock states in the same state are still different states
+                    if not any(os is x for x in state_list):
                         state_list.append(os)
 
         # If the state resides in the BaseState or Envelope measure there
